@@ -203,19 +203,17 @@ def run(ctx):
     argn = H.pat_binds(hca["params"][1])[0]
     want = {"Exact": ("bin", "Eq", ("n",), ("pb", 0)), "AtLeast": ("bin", "Ge", ("n",), ("pb", 0)),
             "Between": ("bin", "And", ("bin", "Ge", ("n",), ("pb", 0)), ("bin", "Le", ("n",), ("pb", 1)))}
-    top = H.final_expr(hca["body"])
-    for a in top["arms"]:
-        who = "|".join(H.last(v) for v in H.pat_variants(a["pat"]))
-        mm = [n for n in H.walk(a["body"]) if H.kind(n) == "Match" and n["scrut"].get("ty", "").endswith("FunctionArity")]
-        if not mm:
-            ctx.inst("C04.R3", "check_arity[%s]" % who, False, "no match on the arity", H.loc(a["body"]))
-            continue
-        for aa in mm[0]["arms"]:
+    # every match on the arity class inside check_arity (one per copy today; one in all after de-duplication)
+    mms = [n for n in H.walk(hca["body"]) if H.kind(n) == "Match" and n["scrut"].get("ty", "").lstrip("&").endswith("FunctionArity")]
+    if not mms:
+        ctx.inst("C04.R3", "check_arity", None, "no match on the arity class found in check_arity", H.loc(hca["body"]))
+    for mi, mm in enumerate(mms):
+        for aa in mm["arms"]:
             cls = "|".join(H.last(v) for v in H.pat_variants(aa["pat"]))
             env = S.Env(roles={argn: ("n",)})
             positional(aa["pat"], env)
             ifs = [n for n in H.walk(aa["body"]) if H.kind(n) == "If"]
-            ok, d = False, "no test"
+            ok, d = None, "no `if` test in the arm"
             if ifs:
                 c = S.norm(ifs[0]["cond"], env)
                 then_ok = S.norm(ifs[0]["then"], env) in (("ctor", "Ok", ("tup",)), ("tup",))
@@ -223,7 +221,7 @@ def run(ctx):
                 err_else = els is not None and S.contains(els, "Err") or (els is not None and els[0] == "ctor" and els[1] == "Err")
                 ok = c == want.get(cls) and then_ok and err_else
                 d = "accepts iff %s; Ok on true: %s; Err otherwise: %s" % (S.show(c), then_ok, err_else)
-            ctx.inst("C04.R3", "check_arity[%s][%s]" % (who, cls), ok, d, H.loc(aa["body"]))
+            ctx.inst("C04.R3", "check_arity#%d[%s]" % (mi, cls), ok, d, H.loc(aa["body"]))
     can_accept_rule(ctx, "C04.R3", core)
     hga = core.hir_fn(CORE + "values::LambdaDef::get_arity")
     t = S.norm(hga["body"], S.Env())
